@@ -51,6 +51,7 @@ class Ctx:
         self.notes: List[str] = []
         self.clause = ""
         self.floors: Dict[str, Tuple[int, int]] = {}  # label -> (found, floor)
+        self.seen_through: set = set()  # private helpers whose bodies a rule examined itself (not opaque for the opacity gate)
 
     def cfg(self, f: FunctionInfo) -> CFG:
         if f.fq not in self._cfgs:
